@@ -19,6 +19,7 @@
 -/
 import RumaModel.Model.TopoSort
 import RumaModel.Model.Event
+import RumaModel.Model.Auth
 namespace Ruma.StateRes
 open Ruma
 
@@ -448,5 +449,18 @@ def resolve (p : Params) (o : Orders) (store : List Event) (sets : List StateMap
           match iterativeAuthCheck p fetch sortedLeft resolvedControl with
           | .error e => .error e
           | .ok resolved => .ok (extend resolved clean)
+
+/-! ### the parameters as they are in the repository -/
+
+/-- `Params` instantiated with the model of `event_auth.rs` / `events/*.rs` (C08/C09,
+`Model/Auth.lean`) for one set of `AuthorizationRules`: what `resolve` actually calls. The drivers
+evaluate `resolve` and the specification with these parameters. -/
+def realParams (r : AuthRules) : Params :=
+  { creatorOf := fun e => (Auth.createCreator r e).toOption
+    userLevel := fun pl u c => (Auth.plUserLevel r pl u c).toOption
+    usersDefault := fun pl => (Auth.plIntOrDefault r pl .usersDefault).toOption
+    membership := fun e => (Auth.contentMembership e.content).toOption
+    authTypes := fun e => (Auth.authTypesForEvent r e).toOption
+    auth := fun e f => Auth.authCheck r e f }
 
 end Ruma.StateRes
